@@ -1,4 +1,125 @@
+//! fv-cachex: drivers for the cache properties (C11, C12, C13, C16, C17).
+//!
+//!   fv-cachex cache-seq --seed N --programs N --ops N --profiles mix,ttl,cap,iter,burst --out FILE [--kf F14,F15]
+//!   fv-cachex cache-stress --seed N --rounds N --threads N --out FILE
+//!
+//! Histories are written as ndjson (one `new` record per history); one JSON line of
+//! statistics goes to stdout.  A panic or a hang inside library code becomes a `panic` /
+//! `hung` record of the history, never a crash of the driver.
+
+mod rt;
+mod seq;
+mod stress;
+
+use parking_lot::Mutex;
+use rand::rngs::StdRng;
+use rand::{Rng, SeedableRng};
+use serde_json::json;
+use std::collections::HashMap;
+use std::io::Write;
+use std::sync::mpsc;
+use std::sync::Arc;
+use std::time::{Duration, Instant};
+
+fn args() -> (String, HashMap<String, String>) {
+  let a: Vec<String> = std::env::args().skip(1).collect();
+  let cmd = a.first().cloned().unwrap_or_default();
+  let mut m = HashMap::new();
+  let mut i = 1;
+  while i + 1 < a.len() {
+    m.insert(a[i].trim_start_matches("--").to_string(), a[i + 1].clone());
+    i += 2;
+  }
+  (cmd, m)
+}
+
+fn get<T: std::str::FromStr>(m: &HashMap<String, String>, k: &str, d: T) -> T {
+  m.get(k).and_then(|v| v.parse().ok()).unwrap_or(d)
+}
+
+fn list(m: &HashMap<String, String>, k: &str, d: &str) -> Vec<String> {
+  m.get(k).map(|s| s.as_str()).unwrap_or(d).split(',').filter(|s| !s.is_empty()).map(|s| s.to_string()).collect()
+}
+
+/// Runs `f` on its own thread; the records it produced are returned even if it panics or hangs.
+pub fn guarded<F>(out: seq::Out, limit: Duration, f: F) -> &'static str
+where
+  F: FnOnce() + Send + 'static,
+{
+  let (tx, rx) = mpsc::channel();
+  let o2 = out.clone();
+  std::thread::Builder::new()
+    .stack_size(8 << 20)
+    .spawn(move || {
+      let r = std::panic::catch_unwind(std::panic::AssertUnwindSafe(f));
+      if let Err(e) = r {
+        let msg = e.downcast_ref::<String>().cloned().or_else(|| e.downcast_ref::<&str>().map(|s| s.to_string())).unwrap_or_default();
+        o2.lock().push(json!({"k":"panic","msg":msg}).to_string());
+      }
+      let _ = tx.send(());
+    })
+    .expect("spawn");
+  match rx.recv_timeout(limit) {
+    Ok(()) => "ok",
+    Err(_) => {
+      out.lock().push(json!({"k":"hung","what":"operation did not return"}).to_string());
+      "hung"
+    }
+  }
+}
+
+fn cache_seq(m: &HashMap<String, String>) {
+  let seed: u64 = get(m, "seed", 1);
+  let programs: usize = get(m, "programs", 10);
+  let ops: usize = get(m, "ops", 60);
+  let profiles = list(m, "profiles", "mix");
+  let kf = list(m, "kf", "");
+  let outp = m.get("out").cloned().unwrap_or_else(|| "/dev/stdout".into());
+  let mut file = std::io::BufWriter::new(std::fs::File::create(&outp).expect("out file"));
+  let mut master = StdRng::seed_from_u64(seed);
+  let t0 = Instant::now();
+  let (mut records, mut panics, mut hung) = (0usize, 0usize, 0usize);
+  let mut by_profile: HashMap<String, usize> = HashMap::new();
+  std::panic::set_hook(Box::new(|_| {}));
+  for i in 0..programs {
+    let profile = profiles[i % profiles.len()].clone();
+    let hseed: u64 = master.random();
+    let mut rng = StdRng::seed_from_u64(hseed);
+    let cfg = seq::random_cfg(&mut rng, &profile, ops, &kf);
+    let out: seq::Out = Arc::new(Mutex::new(Vec::new()));
+    let o2 = out.clone();
+    let st = guarded(out.clone(), Duration::from_secs(60), move || {
+      let mut sim = seq::Sim::new(cfg, hseed, o2);
+      sim.run();
+    });
+    let recs = std::mem::take(&mut *out.lock());
+    if recs.iter().any(|r| r.starts_with("{\"k\":\"panic\"")) {
+      panics += 1;
+    }
+    if st == "hung" || recs.iter().any(|r| r.starts_with("{\"k\":\"hung\"")) {
+      hung += 1;
+    }
+    records += recs.len();
+    *by_profile.entry(profile).or_default() += 1;
+    for r in recs {
+      writeln!(file, "{}", r).unwrap();
+    }
+  }
+  file.flush().unwrap();
+  println!("{}", json!({"driver":"cache-seq","seed":seed,"histories":programs,"records":records,"panics":panics,"hung":hung,
+    "profiles":by_profile,"wall_ms":t0.elapsed().as_millis() as u64}));
+}
+
 fn main() {
-  eprintln!("fv-cachex: not built yet");
-  std::process::exit(2);
+  let (cmd, m) = args();
+  match cmd.as_str() {
+    "cache-seq" => cache_seq(&m),
+    "cache-stress" => stress::run(&m),
+    _ => {
+      eprintln!("usage: fv-cachex cache-seq|cache-stress --seed N --programs N --ops N --profiles a,b --out FILE");
+      std::process::exit(2);
+    }
+  }
+  // leaked janitor threads of dropped caches must not keep the process alive
+  std::process::exit(0);
 }
